@@ -718,6 +718,12 @@ pub fn run_property(e: &dyn DynEngine, o: RunOpts) -> i32 {
             return 2;
         }
     };
+    // replay files of earlier runs of this property would only confuse: start clean
+    if let Ok(rd) = std::fs::read_dir(verif_dir().join("replays").join(prop)) {
+        for f in rd.flatten() {
+            let _ = std::fs::remove_file(f.path());
+        }
+    }
     let total = o.runs_override.unwrap_or_else(|| e.runs(o.tier));
     let hang = Duration::from_secs(if o.tier == Tier::Quick { 90 } else { 180 });
     let exec_timeout = Duration::from_secs(60);
